@@ -487,6 +487,23 @@ def main():
             mo = a.maxops if i % 4 else max(6, a.maxops // 4)
             for l in gen_case(rnd, a.kind, "%s-%d-%d" % (a.kind, a.seed, i), mo, stats, allow_ttl0=not a.no_ttl0):
                 f.write(l + "\n")
+        if a.kind in ("ut_map", "ut_set"):
+            # a burst of thousands of keys that all expire at once: the purge at the start of the next call must take them all
+            nk, tl = 2500, 5
+            keys = list(range(1, nk + 1))
+            now = 1000 * MS
+            L = ["case %s-%d-burst %d %d %d 1 8 %d 1 1 0 %d %s" % (a.kind, a.seed, KID[a.kind], rnd.choice([0, 1]), rnd.choice([0, 1]), tl, nk, " ".join(map(str, keys)))]
+            L.append("op %d insert_range 3 %d %s" % (now, nk, " ".join("0 %d %d" % (k, 1 if a.kind == "ut_set" else 100000 + k) for k in keys)))
+            L.append("op %d size" % now)
+            now += tl * MS
+            L.append("op %d %s" % (now, rnd.choice(["find 7 0", "erase 9", "insert 0 3 5 3", "find_range 0 2 1 2500"])))
+            L.append("op %d size" % now)
+            L.append("probe %d" % now)
+            L.append("op %d clean" % now)
+            L.append("op %d size" % now)
+            L.append("end")
+            for l in L:
+                f.write(l + "\n")
         if a.kind not in ("ut_map", "ut_set"):
             for j in range(2):
                 for l in gen_big(rnd, a.kind, "%s-%d-big%d" % (a.kind, a.seed, j)):
